@@ -460,7 +460,7 @@ func init() {
 
 var hostileAlphabet = []string{"'", "\"", "`", "\\", "-", "/", "*", ";", "(", ")", ",", "\x00", "\t", "\n", " ", "é", "\xff", "{", "}", "a", "Z", "0", "9", "_", "$", "=", ".", "%", "|", "\r"}
 var hostileConstants = []string{"\\", "\\'", "'--", "*/", "/*", "'; DROP", "x' , (select 1) as y, '", "--", "\\\\", "''", "\"\"", "``", "\\\"", "a\\", "' OR '1'='1", "{p: Int32}", "\\n", "\\x41", "\\0", ")", "\";", "\\u0041", "\\u0027 OR 1=1", "http://h/p;q", "u0041", "xu0027 OR 1=1 --", "x41", "x27;", "0", "b", "r", "U0001F600", "u{41}", "N{DOLLAR SIGN}", "047", "e'"}
-var hostileNumbers = []string{"0x00000000000000001", "0x0ffffffffffffffff", "0X000000000000000000000a", "00e5", "000e-3", "00E0", "0.0e5", "00.5e1", "0e5", "0", "7", "007", "0x1F", "0X0a", ".5", "1.", "1e3", "1.E+2", "1.50", "0.0", "1234567890123456789012345", "1e400", "0e0", "00", "0xffffffffffffffff"}
+var hostileNumbers = []string{"9007199254740993e0", "900719925474099.3e1", "18446744073709551615e0", "1234567890123456789e0", "0x8000000000000000", "0xFFFFFFFFFFFFFFFE", "0x00000000000000001", "0x0ffffffffffffffff", "0X000000000000000000000a", "00e5", "000e-3", "00E0", "0.0e5", "00.5e1", "0e5", "0", "7", "007", "0x1F", "0X0a", ".5", "1.", "1e3", "1.E+2", "1.50", "0.0", "1234567890123456789012345", "1e400", "0e0", "00", "0xffffffffffffffff"}
 var hostileInts = []string{"0x00000000000000001", "0x0ffffffffffffffff", "0", "7", "007", "0x1F", "0X0a", "00", "18446744073709551615", "1234567890123456789012345"}
 var plainNamePool = []string{"zz", "Col_1", "_x", "a1b2", "T9", "where_", "selectx", "x"}
 
@@ -510,6 +510,37 @@ func genContent(rt *rapid.T, allowNewline bool) string {
 	return sb.String()
 }
 
+func swapCase(s string) string {
+	b := []byte(s)
+	for i, c := range b {
+		switch {
+		case c >= 'a' && c <= 'z':
+			b[i] = c - 32
+		case c >= 'A' && c <= 'Z':
+			b[i] = c + 32
+		}
+	}
+	return string(b)
+}
+
+// plainOK: usable as an unquoted name that is no keyword or constant.
+func plainOK(s string) bool {
+	if s == "" || !(s[0] == '_' || s[0] >= 'a' && s[0] <= 'z' || s[0] >= 'A' && s[0] <= 'Z') {
+		return false
+	}
+	for i := 0; i < len(s); i++ {
+		c := s[i]
+		if !(c == '_' || c >= 'a' && c <= 'z' || c >= 'A' && c <= 'Z' || c >= '0' && c <= '9') {
+			return false
+		}
+	}
+	switch s {
+	case "and", "or", "in", "by", "true", "false", "null", "let":
+		return false
+	}
+	return true
+}
+
 func contentClasses(v string) []string {
 	var out []string
 	add := func(cond bool, c string) {
@@ -540,6 +571,7 @@ func TestC04Fillings(t *testing.T) {
 		c := &fillCase{Skeleton: gen.MarshalTree(skel)}
 		classSet := map[string]bool{}
 		kinds := map[holeKind]int{}
+		lastName := ""
 		for _, h := range holes {
 			var v string
 			switch h.kind {
@@ -556,6 +588,15 @@ func TestC04Fillings(t *testing.T) {
 				v = rapid.SampledFrom(hostileNumbers).Draw(rt, "num")
 			case holeIntNum:
 				v = rapid.SampledFrom(hostileInts).Draw(rt, "int")
+			}
+			if (h.kind == holeQuotedName || h.kind == holePlainName) && lastName != "" && rapid.IntRange(0, 7).Draw(rt, "casetwin") == 0 {
+				// the same name in another letter case: a different name
+				if sc := swapCase(lastName); sc != lastName && (h.kind == holeQuotedName || plainOK(sc)) {
+					v = sc
+				}
+			}
+			if h.kind == holeQuotedName || h.kind == holePlainName {
+				lastName = v
 			}
 			kinds[h.kind]++
 			for _, cl := range contentClasses(v) {
